@@ -674,12 +674,21 @@ class DataIndex(BaseDataIndex, MutableMapping[DataIndexKey, DataIndexEntry]):
                 item.meta = self._get_meta(key, item)
             return item
 
-        lprefix = self._trie.longest_prefix(key)
+        lprefix = self._longest_prefix(key)
         if lprefix is not None:
             dir_key, dir_entry = lprefix
             self._load(dir_key, dir_entry)
 
         return self._trie[key]
+
+    def _longest_prefix(self, key):
+        item = self._trie.longest_prefix(key)
+        if not item and key:
+            # the SQLite-backed trie does not report an entry at the root key
+            root = self._trie.get(())
+            if root is not None:
+                return (), root
+        return item
 
     def __delitem__(self, key):
         del self._trie[key]
@@ -742,7 +751,7 @@ class DataIndex(BaseDataIndex, MutableMapping[DataIndexKey, DataIndexEntry]):
         shallow: bool = False,
     ) -> Iterator[tuple[DataIndexKey, DataIndexEntry]]:
         if prefix:
-            item = self._trie.longest_prefix(prefix)
+            item = self._longest_prefix(prefix)
             if item:
                 key, entry = item
                 self._load(key, entry)
